@@ -2,12 +2,15 @@
    Model: Core.aligner_align (pairing -> scoring -> segments -> chain -> stack-based conflict resolution) and Multi.row_create.
    Hypotheses: engine_ok P reference query := 0 <= DMAX /\ 0 < MS /\ SU <= 0 /\ both label lists strictly ascending;
                qry_in_range query := every query label lies in [0, length - 1] (true of trimmed queries and their fragments).
+   Whole runs (C01_run_rows_valid, added): every NON-JOINED record of every output file of every mode of model/Coordinator.program_run.
    What is NOT covered by a theorem: joined rows of the multi-pass modes (AlignmentResultRow.resolve joins segments[0] of the two
    parts without the chain admissibility the resolver relies on: see DESIGN.md 10.4, open finding) and maps with coincident labels;
    for those the verified checker below still decides every emitted record at run time. *)
 From Coq Require Import ZArith QArith List Bool.
 Import ListNotations.
 Require Import Py Cigar Pairing Core Multi Checkers CheckersProofs ResolverProofs3 RowProofs RowProofs2 RowProofs3 ResolverProofs10 ResolverProofs14.
+Require Import Coordinator RecordProofs1 RunProofs2 RunProofs3.
+Require ModesExamples RunProofs4.
 Open Scope Z_scope.
 
 (* valid_row nref qlo qhi rev ps: ps <> [], every pair names reference label 1..nref and query label qlo..qhi,
@@ -59,8 +62,79 @@ Proof.
   - vm_compute. split; reflexivity.
 Qed.
 
+(* ================================================================== whole runs (model/Coordinator.v) ============================== *)
+(* C01_all_rows_valid for a map with a label-number offset (second-pass fragments: getPositionsWithSiteIds numbers their labels from
+   1 + shift): the query label numbers of the row lie in 1 + shift .. shift + number of labels.  nlabels m = number of labels of m. *)
+Theorem C01_all_rows_valid_shift P it reference query peaks reverse out : engine_ok P reference query -> qry_in_range query ->
+  mshift reference = 0 -> aligner_align P it reference query peaks reverse = Ok out -> row_pairs out <> [] ->
+  valid_row (nlabels reference) (1 + mshift query) (mshift query + nlabels query) reverse (row_sites (row_pairs out)).
+Proof. exact (aligner_row_valid_shift P it reference query peaks reverse out). Qed.
+
+(* Vocabulary (proofs/RunProofs2.v, RunProofs3.v):
+     seeds_ok refs seeds := forall q sd, In sd (seeds refs q) -> In (sd_ref sd) refs     (the seeding stage proposes only maps it was given)
+     reference_ok r      := mshift r = 0 /\ strictly ascending positions
+     trimmed q           := mshift q = 0 /\ strictly ascending positions /\ at least one label /\ first label at 0 /\ mlen q = last label + K
+     opt_rows / out_rows : the rows of an optional file / of all files of a run
+     valid_run_row refs qs w := exists r q, In r refs /\ In q qs /\ rid w = mid r /\ qid w = mid q /\
+                                 valid_row (nlabels r) 1 (nlabels q) (rrev w) (row_sites (row_pairs (rsegs w)))
+       i.e. the record's pairs are a non-empty one-to-one collinear matching of existing labels of the reference named by RefContigID and
+       of the WHOLE query named by QryContigID (second-pass rows carry whole-query label numbers: RecordProofs1, C02).
+   THE property for whole runs, every seeding function with seeds_ok, every mode, every maxDifference:
+     - every row of the additional files _1 / _2 (mode `all`: first-/second-pass rows; mode `joined`: the un-joined rows) is valid;
+     - every row of the main file is valid OR (modes other than `separate`) is a JOINED row: AlignmentResultRow.resolve of two valid rows —
+       joined rows are EXCLUDED from this theorem (open finding F10: the join of segments[0] of the two parts is not known to be
+       collinear; the run-time checker still decides each of them);
+     - in mode `separate` every row of every file is valid. *)
+Theorem C01_run_rows_valid P (seeds : seeding) m maxdiff refs qs o : SU P <= 0 -> 0 < MS P -> seeds_ok refs seeds ->
+  (forall r, In r refs -> reference_ok r) -> (forall q, In q qs -> trimmed q) -> NoDup (map mid qs) ->
+  program_run P seeds m maxdiff refs qs = Ok o ->
+  (forall w, In w (opt_rows (o_1 o) ++ opt_rows (o_2 o)) -> valid_run_row refs qs w) /\
+  (forall w, In w (o_main o) -> valid_run_row refs qs w \/
+     (m <> Separate /\ exists a b, valid_run_row refs qs a /\ valid_run_row refs qs b /\ join_rows a b = Ok w)) /\
+  (m = Separate -> forall w, In w (out_rows o) -> valid_run_row refs qs w).
+Proof. exact (fun Hsu Hms Hs Hr Hq => run_rows_valid P seeds refs qs Hsu Hms Hs Hr Hq m maxdiff o). Qed.
+(* sharper, for one row handed to the output stage (run_row: it has a pair and is the candidate row of one Aligner.align call on a map q',
+   src_map qs q' := q' is one of the queries or a fragment (prefix / suffix with offset) of one): the label numbers lie in q' 's own range *)
+Theorem C01_run_row_valid_sharp P (seeds : seeding) refs qs w : SU P <= 0 -> 0 < MS P -> seeds_ok refs seeds ->
+  (forall r, In r refs -> reference_ok r) -> (forall q, In q qs -> trimmed q) -> run_row P seeds refs qs w ->
+  exists r q', In r refs /\ src_map qs q' /\ rid w = mid r /\ qid w = mid q' /\
+    valid_row (nlabels r) (1 + mshift q') (mshift q' + nlabels q') (rrev w) (row_sites (row_pairs (rsegs w))).
+Proof. exact (fun Hsu Hms Hs Hr Hq => run_row_valid_sharp P seeds refs qs Hsu Hms Hs Hr Hq w). Qed.
+(* which rows reach which file (joined_from rows j := exists a b in rows, join_rows a b = Ok j; run_passes = the two passes, filtered) *)
+Theorem C01_run_files P (seeds : seeding) m maxdiff refs qs o : program_run P seeds m maxdiff refs qs = Ok o ->
+  exists f1 f2, run_passes P seeds refs m qs = Ok (f1, f2) /\
+  (forall w, In w (o_main o) -> In w (f1 ++ f2) \/ (m <> Separate /\ joined_from (f1 ++ f2) w)) /\
+  (forall w, In w (opt_rows (o_1 o) ++ opt_rows (o_2 o)) -> In w (f1 ++ f2)) /\
+  match m with
+  | Separate => o = mkOut f1 (Some f2) None
+  | All_ => o_1 o = Some f1 /\ o_2 o = Some f2 /\ forall w, In w (o_main o) -> joined_from (f1 ++ f2) w
+  | Joined => o_2 o = None /\ (exists sep, o_1 o = Some sep) /\ forall w, In w (o_main o) -> joined_from (f1 ++ f2) w
+  | Best => o_1 o = None /\ o_2 o = None
+  end.
+Proof. exact (program_run_rows P seeds refs qs m maxdiff o). Qed.
+
+(* non-vacuity: the run of proofs/ModesExamples.v (one reference of 16 labels, one query of 12 labels with a 30 kb insertion after label 6)
+   meets the hypotheses; mode `all` writes the first-pass row (labels 1-6) to _1 and the second-pass row, aligned on the fragment with
+   offset 6 and carrying the WHOLE query's label numbers 7-12, to _2; the checker accepts both against 16 reference / 12 query labels *)
+Example C01_run_nonvacuous :
+  SU ModesExamples.ex_P <= 0 /\ 0 < MS ModesExamples.ex_P /\ seeds_ok [ModesExamples.ex_ref] ModesExamples.ex_seeds /\
+  (forall r, In r [ModesExamples.ex_ref] -> reference_ok r) /\ (forall q, In q [ModesExamples.ex_query] -> trimmed q) /\
+  NoDup (map mid [ModesExamples.ex_query]) /\ nlabels ModesExamples.ex_ref = 16 /\ nlabels ModesExamples.ex_query = 12 /\
+  match program_run ModesExamples.ex_P ModesExamples.ex_seeds All_ 110000 [ModesExamples.ex_ref] [ModesExamples.ex_query] with
+  | Ok o => map (fun w => row_sites (row_pairs (rsegs w))) (opt_rows (o_1 o)) = [ModesExamples.ex_p16] /\
+            map (fun w => row_sites (row_pairs (rsegs w))) (opt_rows (o_2 o)) = [ModesExamples.ex_p712] /\
+            forallb (fun w => Checkers.valid_rowb 16 1 12 (rrev w) (row_sites (row_pairs (rsegs w)))) (opt_rows (o_1 o) ++ opt_rows (o_2 o)) = true
+  | Err => False
+  end.
+Proof. split; [discriminate|]. split; [reflexivity|]. split; [exact RunProofs4.ex_seeds_ok|]. split; [exact RunProofs4.ex_ref_ok|].
+  split; [exact RunProofs4.ex_query_trimmed|]. split; [exact RunProofs4.ex_ids|]. vm_compute. repeat split; reflexivity. Qed.
+
 Print Assumptions C01_all_rows_valid.
 Print Assumptions C01_listing_sorted.
 Print Assumptions C01_from_disjoint.
 Print Assumptions C01_checker_sound_complete.
 Print Assumptions C01_one_to_one.
+Print Assumptions C01_all_rows_valid_shift.
+Print Assumptions C01_run_rows_valid.
+Print Assumptions C01_run_row_valid_sharp.
+Print Assumptions C01_run_files.
